@@ -30,6 +30,9 @@ What makes a good change:
   sibling implementations of the same thing, data-structure modules, error paths, configuration handling that the property relies on
   are all fair game, as long as the property as stated is genuinely violated (observable through the public API of the crate).
 - Touch only files under src/. Keep it small (typically 5-40 changed lines).
+- Earlier rounds of this exercise already used the ideas listed below for this property. Yours must be a DIFFERENT idea at a DIFFERENT
+  site (a variation of a listed one does not count):
+{used}
 
 Hard requirements (verify each yourself, in your worktree; always prefix cargo with `RUSTC_WRAPPER= CARGO_NET_OFFLINE=true`, the
 sandbox is offline and sccache is not installed):
@@ -39,7 +42,8 @@ sandbox is offline and sccache is not installed):
    must end with `691 tests run: 691 passed`. (Takes some minutes; other jobs share the machine. Run it once, near the end.)
 3. A demonstration: a new integration test file (e.g. tests/{low}_r5_demo{k}.rs, using only the crate's public API, crate name
    `redis_sim`) or a small example, that FAILS with your change and PASSES on the unchanged tree. Run it both ways
-   (`git stash` / `git apply -R` to get the unchanged tree). It must be deterministic.
+   (use `git diff > /tmp/x.diff; git apply -R /tmp/x.diff` to get the unchanged tree; do NOT use `git stash`: the stash is shared
+   between all worktrees of the repository and other agents are working in theirs). It must be deterministic.
 
 Deliverables in {out}:
 - patch.diff : `git diff` of your src/ change only, relative to the worktree's HEAD (must apply with `git apply` on a clean HEAD; the demo test is NOT in it)
@@ -51,6 +55,20 @@ You need not clean the worktree when you are done. Do not commit. If an idea tur
 """
 
 
+def used_ideas(pid, outn):
+    import glob
+    out = []
+    for m in sorted(glob.glob(os.path.join(VERIF, "seeded", pid + "_*", "meta.json"))) + sorted(glob.glob("/tmp/wt/out%s/%s_*/meta.json" % (outn, pid))):
+        try:
+            d = json.load(open(m))
+        except Exception:
+            continue
+        txt = (d.get("breaks") or d.get("summary") or "").replace("\n", " ")
+        if txt:
+            out.append("  * " + txt[:230])
+    return "\n".join(out) if out else "  (none yet)"
+
+
 def main():
     tag, outdir = sys.argv[1], sys.argv[2]
     os.makedirs(outdir, exist_ok=True)
@@ -59,7 +77,7 @@ def main():
         for k in ("1", "2"):
             sid = "%s_%s" % (p["id"], k)
             txt = T.format(wt="/tmp/wt/%s_%s" % (tag, sid), out="/tmp/wt/out%s/%s" % (tag.lstrip("r"), sid), pid=p["id"],
-                           prop=json.dumps(p, indent=1), flavour=FLAV[k], low=p["id"].lower(), k=k)
+                           prop=json.dumps(p, indent=1), used=used_ideas(p["id"], tag.lstrip("r")), flavour=FLAV[k], low=p["id"].lower(), k=k)
             open(os.path.join(outdir, sid + ".txt"), "w").write(txt)
     print("ok")
 
